@@ -51,7 +51,7 @@ structure Node where
   parent : Option Nat
   children : List Nat
   threshold : Option Rat
-  keyPath : String := ""      -- `Node.key_path`, used only for the sort in `get_locked_blocks`
+  keyPath : List Nat := []    -- code points of `Node.key_path`; used only for the sort in `get_locked_blocks`
   inProgram : Bool := true    -- false for injected nodes (not reachable from the program root)
 deriving Repr, Inhabited
 
@@ -111,7 +111,7 @@ structure Gen where
 deriving Repr, Inhabited
 
 structure St where
-  rt : Array NodeRt
+  rt : Nat → NodeRt := fun _ => {}     -- total map node ↦ runtime record (function update; see `setRt`)
   gens : List Gen := []
   imap : List (Nat × Nat) := []        -- `_interrupts_map`: node ↦ gid, Python dict order
   nextGid : Nat := 1
@@ -161,10 +161,16 @@ def blockName (p : Prog) (n : Nat) : String :=
 
 /-! ### runtime helpers -/
 
-def getRt (s : St) (n : Nat) : NodeRt := s.rt.getD n {}
+def getRt (s : St) (n : Nat) : NodeRt := s.rt n
 
 def setRt (s : St) (n : Nat) (f : NodeRt → NodeRt) : St :=
-  { s with rt := s.rt.setIfInBounds n (f (getRt s n)) }
+  { s with rt := fun k => if k = n then f (s.rt n) else s.rt k }
+
+/-- Extensionally the identity: re-tabulates the runtime map (used by the driver between ticks so
+    that chains of function updates stay short). -/
+def compact (size : Nat) (s : St) : St :=
+  let a : Array NodeRt := (Array.range size).map s.rt
+  { s with rt := fun k => if k < size then a.getD k {} else s.rt k }
 
 def emit (s : St) (e : Event) : St := { s with events := e :: s.events }
 
@@ -177,11 +183,18 @@ def resetOne (r : NodeRt) : NodeRt :=
 def resetSubtree (p : Prog) (s : St) (n : Nat) : St :=
   (n :: descendants p n).foldl (fun s k => setRt s k resetOne) s
 
-/-- `ProgramNode.get_locked_blocks()`: program blocks with the lock, sorted by key path, reversed. -/
+/-- Python `str.__lt__` on the code-point lists. -/
+def ltCodes : List Nat → List Nat → Bool
+  | [], [] => false
+  | [], _ :: _ => true
+  | _ :: _, [] => false
+  | a :: as, b :: bs => if a < b then true else if b < a then false else ltCodes as bs
+
 def insertDesc (p : Prog) (x : Nat) : List Nat → List Nat
   | [] => [x]
-  | y :: ys => if (node p y).keyPath < (node p x).keyPath then x :: y :: ys else y :: insertDesc p x ys
+  | y :: ys => if ltCodes (node p y).keyPath (node p x).keyPath then x :: y :: ys else y :: insertDesc p x ys
 
+/-- `ProgramNode.get_locked_blocks()`: program blocks with the lock, sorted by key path, reversed. -/
 def lockedBlocks (p : Prog) (s : St) : List Nat :=
   let bs := (List.range p.size).filter (fun n => (node p n).inProgram && isBlock p n && (getRt s n).lockAcquired)
   bs.foldl (fun acc x => insertDesc p x acc) []
@@ -298,6 +311,51 @@ def finishNode (s : St) (n : Nat) : St :=
 def markFailed (s : St) (n : Nat) : St :=
   emit (setRt s n (fun r => { r with failed := true })) (.fail n)
 
+/-- One block ended by `End block` / `End blocks`. -/
+def endOneBlock (p : Prog) (s : St) (old : Nat) (newName : String) : St :=
+  let s := emit s (.blockEnd (blockName p old) newName)
+  let s := setRt s old (fun r => { r with blockEnded := true })
+  let s := abortBlockInterrupts p s old
+  emit s (.scopeEnd old)
+
+/-- The state change of `visit_EndBlockNode` (before the node itself is marked completed). -/
+def endBlockStep (p : Prog) (s : St) : St :=
+  match lockedBlocks p s with
+  | [] => s
+  | old :: rest =>
+    let newName : Option String := rest.head?.map (blockName p)
+    endOneBlock p { s with blockTag := newName } old (newName.getD "")
+
+/-- The state change of `visit_EndBlocksNode`. -/
+def endBlocksStep (p : Prog) (s : St) : St :=
+  let locked := lockedBlocks p s
+  let s := locked.zipIdx.foldl (fun s (old, i) =>
+    let newName := if i + 1 < locked.length - 1 then (locked[i + 1]?.map (blockName p)).getD "" else ""
+    endOneBlock p s old newName) s
+  { s with blockTag := none }
+
+/-- Completion of an Alarm body: count, unregister, reset the subtree, register again. -/
+def alarmRearm (p : Prog) (s : St) (n : Nat) : St :=
+  let s := emit (markCompleted s n) (.scopeEnd n)
+  let s := setRt s n (fun r => { r with runCount := r.runCount + 1 })
+  let s := unregisterInterrupt s n
+  let s := resetSubtree p s n
+  registerInterrupt p s n
+
+/-- `visit_CallMacroNode` "prepare invoke". -/
+def callPrepare (p : Prog) (s : St) (m : Nat) : St :=
+  let mr := getRt s m
+  if mr.runStarted ≤ mr.runCompleted then
+    setRt (resetSubtree p s m) m (fun r => { r with runStarted := r.runStarted + 1 })
+  else s
+
+/-- `visit_CallMacroNode` after the macro body returned. -/
+def callFinish (s : St) (n m : Nat) : St :=
+  let s := setRt s m (fun r => { r with runCompleted := r.runCompleted + 1 })
+  let s := finishNode s n
+  let s := setRt s m (fun r => { r with completed := true })
+  setRt s n (fun r => { r with completed := true })
+
 /-! ### one micro-step of a generator
 
 `stepFrame p s f below` executes the top frame `f` (with the rest of the stack `below`) up to its
@@ -361,18 +419,18 @@ def stepBody (p : Prog) (s : St) (n pc : Nat) (below : List Frame) : Out :=
         | some cascade =>
           if cascade.contains name then .raise (markFailed s n)
           else
-            let mr := getRt s m
-            let s := if mr.runStarted ≤ mr.runCompleted then
-                let s := resetSubtree p s m
-                setRt s m (fun r => { r with runStarted := r.runStarted + 1 })
-              else s
-            .next (emit s (.bodyStart n)) [.children m 0 false, .callRet n m] .cont
+            .next (emit (callPrepare p s m) (.bodyStart n)) [.children m 0 false, .callRet n m] .cont
     | _ => .next s [] .cont
   | .block name =>
+    -- release: `lock_acquired = False; children_complete = True; child_index = len; completed = True`
+    let release : Out :=
+      let s := setRt s n (fun r => { r with lockAcquired := false, childrenComplete := true,
+                                            childIndex := nd.children.length, completed := true })
+      .next (finishNode s n) [] .cont
     match pc with
     | 0 =>
       if r.completed then .next (setRt s n (fun r => { r with lockAcquired := false })) [] .cont
-      else if r.blockEnded then .next s [.body n 4] .cont
+      else if r.blockEnded then release
       else .next s [.body n 1] .cont
     | 1 =>
       if r.lockAcquired then .next s [.children n 0 false, .body n 3] .cont
@@ -386,38 +444,15 @@ def stepBody (p : Prog) (s : St) (n pc : Nat) (below : List Frame) : Out :=
           .next s [.children n 0 false, .body n 3] .cont
         else .next s [.body n 1] .endTick
     | 3 =>
-      if r.blockEnded then .next s [.body n 4] .cont else .next s [.body n 3] .endTick
-    | _ =>
-      let s := setRt s n (fun r => { r with lockAcquired := false, childrenComplete := true,
-                                            childIndex := nd.children.length, completed := true })
-      .next (finishNode s n) [] .cont
+      if r.blockEnded then release else .next s [.body n 3] .endTick
+    | _ => .next s [] .cont
   | .endBlock =>
     match pc with
-    | 0 =>
-      let s :=
-        match lockedBlocks p s with
-        | [] => s
-        | old :: rest =>
-          let newName : Option String := rest.head?.map (blockName p)
-          let s := { s with blockTag := newName }
-          let s := emit s (.blockEnd (blockName p old) (newName.getD ""))
-          let s := setRt s old (fun r => { r with blockEnded := true })
-          let s := abortBlockInterrupts p s old
-          emit s (.scopeEnd old)
-      .next (finishNode s n) [.body n 1] .endTick
+    | 0 => .next (finishNode (endBlockStep p s) n) [.body n 1] .endTick
     | _ => .next s [] .cont
   | .endBlocks =>
     match pc with
-    | 0 =>
-      let locked := lockedBlocks p s
-      let s := locked.zipIdx.foldl (fun s (old, i) =>
-        let newName := if i + 1 < locked.length - 1 then (locked[i + 1]?.map (blockName p)).getD "" else ""
-        let s := emit s (.blockEnd (blockName p old) newName)
-        let s := setRt s old (fun r => { r with blockEnded := true })
-        let s := abortBlockInterrupts p s old
-        emit s (.scopeEnd old)) s
-      let s := { s with blockTag := none }
-      .next (finishNode s n) [.body n 1] .endTick
+    | 0 => .next (finishNode (endBlocksStep p s) n) [.body n 1] .endTick
     | _ => .next s [] .cont
   | .wait d =>
     match pc with
@@ -458,12 +493,7 @@ def stepBody (p : Prog) (s : St) (n pc : Nat) (below : List Frame) : Out :=
       let s := emit (emit s (.scopeActivate n)) (.bodyStart n)
       .next s [.children n 0 false, .body n 3] .cont
     | 3 =>
-      let s := emit (markCompleted s n) (.scopeEnd n)
-      let s := setRt s n (fun r => { r with runCount := r.runCount + 1 })
-      let s := unregisterInterrupt s n
-      let s := resetSubtree p s n
-      let s := registerInterrupt p s n
-      .next s [.body n 4] .endTick
+      .next (alarmRearm p s n) [.body n 4] .endTick
     | _ => .next s [] .cont
   | .cmd name fails =>
     match pc with
@@ -509,12 +539,7 @@ def stepFrame (p : Prog) (s : St) (f : Frame) (below : List Frame) : Out :=
         else if inEndedBlock p s (f :: below) c then finish
         else .next s [.wrapEnter c, .children n inx true] .cont
   | .body n pc => stepBody p s n pc below
-  | .callRet n m =>
-    let s := setRt s m (fun r => { r with runCompleted := r.runCompleted + 1 })
-    let s := finishNode s n
-    let s := setRt s m (fun r => { r with completed := true })
-    let s := setRt s n (fun r => { r with completed := true })
-    .next s [.body n 2] .endTick
+  | .callRet n m => .next (callFinish s n m) [.body n 2] .endTick
   | .waitLoop n endT =>
     if s.tickTime < endT && !(getRt s n).forced then
       -- progress = (tick_time - node.wait_start_time) / duration: TypeError once a reset cleared the start time
@@ -584,8 +609,8 @@ def tick (p : Prog) (s : St) (i : TickIn) : St × Bool :=
   let live := s.imap.map (·.2)
   ({ s with gens := s.gens.filter (fun g => g.gid = 0 || live.contains g.gid) }, ok)
 
-def init (p : Prog) : St :=
-  { rt := Array.replicate p.size {}, gens := [{ gid := 0, node := 0, stack := [.wrapEnter 0] }] }
+def init (_p : Prog) : St :=
+  { gens := [{ gid := 0, node := 0, stack := [.wrapEnter 0] }] }
 
 /-! ### requests between ticks -/
 
@@ -617,7 +642,7 @@ def completeCmd (s : St) (n : Nat) : St :=
 /-- `inject_node`: the injected subtree's nodes have been appended to the program (`inProgram = false`). -/
 def inject (p : Prog) (s : St) (n : Nat) : St :=
   -- `create_injected_node_records`: every injected node gets a record at once
-  let rt := s.rt ++ Array.replicate (p.size - s.rt.size) ({ hasRecord := true } : NodeRt)
-  registerInterrupt p { s with rt := rt } n
+  let s := (n :: descendants p n).foldl (fun s k => setRt s k (fun r => { r with hasRecord := true })) s
+  registerInterrupt p s n
 
 end OPM.Interp
